@@ -41,16 +41,19 @@ func (c *WarmUpTrafficShapingCalculator) BoundOwner() *TrafficShapingController 
 }
 
 func NewWarmUpTrafficShapingCalculator(owner *TrafficShapingController, rule *Rule) TrafficShapingCalculator {
-	if rule.WarmUpColdFactor <= 1 {
-		rule.WarmUpColdFactor = config.DefaultWarmUpColdFactor
+	// The default is applied to a local copy: the rule object belongs to the caller and is also kept
+	// by the rule manager to detect identical reloads, so it must not be modified here.
+	coldFactor := rule.WarmUpColdFactor
+	if coldFactor <= 1 {
+		coldFactor = config.DefaultWarmUpColdFactor
 		logging.Warn("[NewWarmUpTrafficShapingCalculator] No set WarmUpColdFactor,use default warm up cold factor value", "defaultWarmUpColdFactor", config.DefaultWarmUpColdFactor)
 	}
 
-	warningToken := uint64((float64(rule.WarmUpPeriodSec) * rule.Threshold) / float64(rule.WarmUpColdFactor-1))
+	warningToken := uint64((float64(rule.WarmUpPeriodSec) * rule.Threshold) / float64(coldFactor-1))
 
-	maxToken := warningToken + uint64(2*float64(rule.WarmUpPeriodSec)*rule.Threshold/float64(1.0+rule.WarmUpColdFactor))
+	maxToken := warningToken + uint64(2*float64(rule.WarmUpPeriodSec)*rule.Threshold/float64(1.0+coldFactor))
 
-	slope := float64(rule.WarmUpColdFactor-1.0) / rule.Threshold / float64(maxToken-warningToken)
+	slope := float64(coldFactor-1.0) / rule.Threshold / float64(maxToken-warningToken)
 	if maxToken == warningToken {
 		// With a small threshold and period there is no room between the warning line and the maximum.
 		// The division above then yields +Inf (or NaN) and CalculateAllowedTokens would return NaN,
@@ -62,7 +65,7 @@ func NewWarmUpTrafficShapingCalculator(owner *TrafficShapingController, rule *Ru
 	warmUpTrafficShapingCalculator := &WarmUpTrafficShapingCalculator{
 		owner:             owner,
 		warmUpPeriodInSec: rule.WarmUpPeriodSec,
-		coldFactor:        rule.WarmUpColdFactor,
+		coldFactor:        coldFactor,
 		warningToken:      warningToken,
 		maxToken:          maxToken,
 		slope:             slope,
